@@ -672,6 +672,18 @@ class Executor:
           hit=True; v=st1.heap[(o.id,e.func.attr+'()')]; yield st1,(s.freeze(v,st1) if s.spec else v)
         else: break
       if hit: return
+    if isinstance(e.func,ast.Name) and e.func.id in('sorted','enumerate','reversed') and e.args and not s.spec and e.func.id not in st.env:
+      # sorted / reversed of a collection abstracted by its element set is that collection (any key function); enumerate pairs each
+      # element with an index the abstraction does not track
+      for st1,v in s.ev(e.args[0],st):
+        if isinstance(v,Exc): yield st1,v; continue
+        from . import symcoll
+        if isinstance(v,Ref) and v.cls=='setlist':
+          yield st1,(symcoll.EnumV(v) if e.func.id=='enumerate' else v); continue
+        if _setlike(v,st1) and e.func.id=='sorted':
+          arr,et=symcoll.setval(v,st1); st2=st1.fork(); yield st2,symcoll.new_setlist(st2,arr,et); continue
+        raise Unsupported(f"{e.func.id}() of {v!r}")
+      return
     pm=getattr(getattr(s,'contract',None),'pure_methods',None)
     if pm and isinstance(e.func,ast.Attribute) and e.func.attr in pm and not s.spec:
       # a method the contract declares pure (assumption, listed in the evidence): a total, deterministic function of the receiver and the
@@ -922,7 +934,8 @@ class Executor:
         else:
           arr=symcoll.EMPTY
           for x in st1.heap[(v.id,'items')]: arr=z3.Store(arr,symcoll.to_obj(x,st1),True)
-          v=symcoll.new_setlist(st1,arr)
+          nm=[t.id for t in n.targets if isinstance(t,ast.Name) and t.id in al][0]
+          v=symcoll.new_setlist(st1,arr,(getattr(s.contract,'list_elems',None) or {}).get(nm))
           if kind=='bag': st1.heap[(v.id,'bag')]=True
       def go(ts,st):
         if not ts: yield st,None; return
@@ -939,7 +952,16 @@ class Executor:
 
   def assign(s,t,v,st):
     if isinstance(t,ast.Name):
-      st=st.fork(); st.env[t.id]=v; yield st,None
+      st=st.fork()
+      al=getattr(getattr(s,'contract',None),'abstract_lists',())
+      if al and t.id in al and isinstance(v,Ref) and v.cls=='list' and st.heap.get((v.id,'items'))==():
+        # an empty list literal bound to a name the contract abstracts (tuple targets, re-binding inside loops)
+        from . import symcoll
+        kind=al[t.id] if isinstance(al,dict) else 'set'
+        if not str(kind).startswith('keyed:'):
+          v=symcoll.new_setlist(st,None,(getattr(s.contract,'list_elems',None) or {}).get(t.id))
+          if kind=='bag': st.heap[(v.id,'bag')]=True
+      st.env[t.id]=v; yield st,None
     elif isinstance(t,(ast.Tuple,ast.List)):
       if isinstance(v,Tup): items=v.items
       elif isinstance(v,Ref) and (v.id,'items') in st.heap: items=st.heap[(v.id,'items')]
@@ -1155,6 +1177,22 @@ class Executor:
         st.env[nm]=symcoll.new_setlist(st,z3.Const(f"{nm}@loop!{st.nextid[0]}",symcoll.SetSort),st.heap.get((v.id,'elem'))); st.nextid[0]+=1
       else: raise Unsupported(f"loop modifies local {nm} of non-scalar type {v!r}")
 
+  def loop_frame_vc(s,n,head_heap,st):
+    """soundness of the loop rule: a heap cell that existed at the loop head and is not havoced there (not in the loop's `modifies`) must
+    be unchanged at the end of the body; otherwise the invariant was assumed for a state the loop never re-establishes."""
+    diffs=[]
+    for k,v0 in head_heap.items():
+      v1=st.heap.get(k,v0)
+      if v1 is v0: continue
+      a=v0.t if isinstance(v0,(I,B)) else v0; b=v1.t if isinstance(v1,(I,B)) else v1
+      if isinstance(a,z3.ExprRef) and isinstance(b,z3.ExprRef):
+        if a.eq(b): continue
+        if a.sort()==b.sort(): diffs.append(a==b); continue
+      if isinstance(v0,Ref) and isinstance(v1,Ref) and v0.id==v1.id: continue
+      if not isinstance(v0,Val) and not isinstance(v0,z3.ExprRef) and v0==v1: continue
+      diffs.append(z3.BoolVal(False))
+    if diffs: st.vcs.append(('loop-frame',f"loop@{n.lineno}",list(st.pc),z3.And(*diffs),st))
+
   def inv_vc(s,kind,n,spec,st,entry):
     st=st.fork()
     for cl in spec.lemmas:      # definitional unfoldings of spec functions, instantiated on the current state
@@ -1181,6 +1219,7 @@ class Executor:
       st1.pc.append(s.spec_bool(cl,st1.env,st1,st1.heap,st1.entry_heap,st1.entry_env))
     for cl in spec.lemmas:
       st1.pc.append(s.spec_bool(cl,st1.env,st1,st1.heap,st1.entry_heap,st1.entry_env))
+    head_heap={k:v for k,v in st1.heap.items() if st.heap.get(k) is v or (isinstance(v,z3.ExprRef) and isinstance(st.heap.get(k),z3.ExprRef) and st.heap[k].eq(v))}
     m0=None
     if spec.decreases is not None:
       m0=s.spec_int(spec.decreases,st1)
@@ -1197,6 +1236,7 @@ class Executor:
             continue
           for st5,ctl in s.block(n.body,st4):
             if ctl is None or ctl[0]=='continue':
+              s.loop_frame_vc(n,head_heap,st5)
               s.inv_vc('inv-step',n,spec,st5,None)
               if m0 is not None:
                 m1=s.spec_int(spec.decreases,st5)
@@ -1257,6 +1297,7 @@ def resolve_locs(loc,env,heap):
 def havoc_keys(keys,st,tag):
   for (oid,f) in keys:
     old=st.heap.get((oid,f))
+    if isinstance(old,Ref): continue          # a field holding a collection: its contents are havoced through the collection's own cells
     if isinstance(old,z3.ExprRef): st.heap[(oid,f)]=z3.Const(f"{tag}.{f}!{st.nextid[0]}",old.sort()); st.nextid[0]+=1
     else: st.heap[(oid,f)]=I(st.fresh_int(f"{tag}.{f}'"))
 
